@@ -411,6 +411,53 @@ func (ck *Check) checkC12() {
 			}
 		}
 	}
+	// every module function called (transitively) from a handler-visible function
+	// other than the handler itself is handler-visible too; its call sites are
+	// kept, so that a map value that is a parameter of a helper is judged by the
+	// arguments passed for it
+	type callSite struct {
+		caller *ssa.Function
+		call   *ssa.Call
+	}
+	sites := map[*ssa.Function][]callSite{}
+	for changed := true; changed; {
+		changed = false
+		for f := range visible {
+			if f == wrap {
+				continue
+			}
+			for _, b := range f.Blocks {
+				for _, ins := range b.Instrs {
+					c, ok := ins.(*ssa.Call)
+					if !ok {
+						continue
+					}
+					fn, ok := c.Common().Value.(*ssa.Function)
+					if !ok || !P.inModule(fn) || len(fn.Blocks) == 0 {
+						continue
+					}
+					if !visible[fn] {
+						visible[fn] = true
+						changed = true
+					}
+				}
+			}
+		}
+	}
+	for f := range visible {
+		if f == wrap {
+			continue
+		}
+		for _, b := range f.Blocks {
+			for _, ins := range b.Instrs {
+				if c, ok := ins.(*ssa.Call); ok {
+					if fn, ok := c.Common().Value.(*ssa.Function); ok && visible[fn] && fn != wrap {
+						sites[fn] = append(sites[fn], callSite{f, c})
+					}
+				}
+			}
+		}
+	}
 	var vis []*ssa.Function
 	for f := range visible {
 		vis = append(vis, f)
@@ -419,6 +466,38 @@ func (ck *Check) checkC12() {
 	for _, f := range vis {
 		name := P.FnName[f]
 		derived := icfgDerived(f)
+		for _, b := range f.Blocks {
+			for _, ins := range b.Instrs {
+				mu, ok := ins.(*ssa.MapUpdate)
+				if !ok {
+					continue
+				}
+				par, ok := mu.Value.(*ssa.Parameter)
+				if !ok {
+					continue
+				}
+				k := -1
+				for i, q := range f.Params {
+					if q == par {
+						k = i
+					}
+				}
+				for _, cs := range sites[f] {
+					if k < 0 || k >= len(cs.call.Common().Args) {
+						continue
+					}
+					arg := cs.call.Common().Args[k]
+					pos := P.pos(cs.call.Pos())
+					if g, ok := isGlobalLoad(arg); ok {
+						ck.flowAdd(fmt.Sprintf("C12/handler_visible/%s/no_package_level_slice_through_%s@%s", P.FnName[cs.caller], name, pos), false,
+							"package-level slice "+g+" is passed to "+name+", which stores it into a header map that the wrapped handler can reach and mutate in place")
+					} else if icfgDerived(cs.caller)[arg] {
+						ck.flowAdd(fmt.Sprintf("C12/handler_visible/%s/no_configuration_owned_slice_through_%s@%s", P.FnName[cs.caller], name, pos), false,
+							"a slice owned by the internalConfig is passed to "+name+", which stores it into a header map that the wrapped handler can reach")
+					}
+				}
+			}
+		}
 		for _, b := range f.Blocks {
 			for _, ins := range b.Instrs {
 				mu, ok := ins.(*ssa.MapUpdate)
